@@ -258,7 +258,29 @@ fn check_incremental(r: &mut Rng, out: &mut ShardOut) -> Vec<Finding> {
             out.count("edit:add_object");
         }
         let mut outb = vec![];
-        if let Err(e) = inc.save_to(&mut outb) {
+        // (one save in four goes through a sink that takes at most 61 bytes per call: what is emitted of the loaded
+        // bytes must not depend on how the sink chunks them)
+        let saved = if r.chance(1, 4) {
+            struct Short(Vec<u8>);
+            impl std::io::Write for Short {
+                fn write(&mut self, b: &[u8]) -> std::io::Result<usize> {
+                    let n = b.len().min(61);
+                    self.0.extend_from_slice(&b[..n]);
+                    Ok(n)
+                }
+                fn flush(&mut self) -> std::io::Result<()> {
+                    Ok(())
+                }
+            }
+            let mut sink = Short(vec![]);
+            let res = inc.save_to(&mut sink);
+            outb = sink.0;
+            out.count("incremental_saves_through_short_writes");
+            res
+        } else {
+            inc.save_to(&mut outb)
+        };
+        if let Err(e) = saved {
             fs.push(mk("save", format!("step {}: save_to failed: {}", step, e), &bytes));
             return fs;
         }
@@ -557,7 +579,7 @@ fn check_front_section(r: &mut Rng, out: &mut ShardOut) -> Vec<Finding> {
 }
 
 pub fn run(cfg: &RunCfg) -> (PropMeta, ShardOut, Map<String, Value>) {
-    let n = cfg.n(12_000, 600_000);
+    let n = cfg.n(12_000, 400_000);
     let per = (n as usize + cfg.threads - 1) / cfg.threads;
     let out = shards(cfg.threads, |shard| {
         let mut out = ShardOut::default();
